@@ -25,6 +25,8 @@ fn main() {
             "C07" => c07::replay(&v["case"]),
             "C08" => c08::replay(&v["case"]),
             "C14" => c14::replay(&v["case"]),
+            "C15" => c15::replay(&v["case"]),
+            "C19" => c19::replay(&v["case"]),
             _ => machinery_error(&format!("no replay for property {id}")),
         };
         match r {
@@ -54,6 +56,8 @@ fn main() {
         "C07" => c07::run(tier),
         "C08" => c08::run(tier),
         "C14" => c14::run(tier),
+        "C15" => c15::run(tier),
+        "C19" => c19::run(tier),
         other => machinery_error(&format!("unknown property {other}")),
     }
 }
